@@ -88,12 +88,12 @@ class _Loader(importlib.machinery.SourceFileLoader):
             body.append(node)
             if isinstance(node, ast.Import):
                 for al in node.names:
-                    if al.name == 're':
-                        nm = al.asname or 're'
+                    if al.name in ('re', 'textwrap'):
+                        nm = al.asname or al.name
                         body.append(ast.copy_location(ast.Assign(
                             targets=[ast.Name(id=nm, ctx=ast.Store())],
                             value=ast.Call(
-                                func=ast.Name(id='__sym_re__',
+                                func=ast.Name(id='__sym_%s__' % al.name,
                                               ctx=ast.Load()),
                                 args=[ast.Name(id=nm, ctx=ast.Load())],
                                 keywords=[])), node))
@@ -111,6 +111,7 @@ class _Loader(importlib.machinery.SourceFileLoader):
         d['str'] = proxies.StrShim
         from pysym import shims as _shims
         d['__sym_re__'] = _shims.wrap_re
+        d['__sym_textwrap__'] = _shims.wrap_textwrap
         REWRITTEN.append(module.__name__)
         super().exec_module(module)
 
